@@ -453,6 +453,18 @@ theorem refresh_same_user_epoch (c : Cfg) (t : Int) (nfields : Nat) (second : Ra
       omega
     · exact ⟨tk, rt, hn, hs, hr1, hv, hr2, hr3, hr4, hsub, hr5, hs1, hs2⟩
 
+/-- RECORDED (configuration): `VerifyJwt("")` and `VerifyRefreshJwt("")` both answer "guest, no error", so a
+`Refresh` that carries NO token at all is turned down only by the expiry-distance test, i.e. only because the
+two configured lifetimes differ by more than ε (`source_constants`).  Witness: in the source configuration
+with an expected distance of 0 the server signs a fresh token pair for "guest" for a request without
+credentials. -/
+theorem refresh_without_tokens_needs_distinct_ttls :
+    let c : Cfg := { srcCfg with pairDiff := 0 }
+    let σ : Secret → Bool := fun k => k == c.sAccess
+    (∃ out, refresh c 1800000000 1 .empty [] .empty σ σ = .ok out ∧ out.user = c.guest) ∧
+    refresh srcCfg 1800000000 1 .empty [] .empty σ σ = .error .invalidToken := by
+  exact ⟨⟨_, rfl, rfl⟩, rfl⟩
+
 /-! ## issued tokens are accepted (non-vacuity of everything above) -/
 
 /-- **issued_tokens_verify**, access: a token `CreateToken` issues at `t0` is accepted by `VerifyJwt` (expiry
